@@ -8,7 +8,7 @@
    proved by vm_compute on the regenerated Gen/TablesC15.v. *)
 From Coq Require Import ZArith NArith List Bool Lia Arith.
 From PydoctorVerif Require Import Base.Sexp Base.PyExpr Gen.TablesC15 Model.StrEsc Model.Wrap Spec.PyGrammar Spec.PyLex
-     Model.ExprPrint Proofs.PyGrammarProofs.
+     Model.ExprPrint Proofs.PyGrammarProofs Proofs.PyGrammarFuel Proofs.WrapProofs.
 Import ListNotations.
 
 (* ------------------------------------------------------------------ induction principle for the nested type *)
@@ -1076,6 +1076,12 @@ Proof.
   apply ES_climb_stop. reflexivity.
 Qed.
 
+(* with the reader's own fuel (8 * number of tokens + 8) *)
+Theorem read_print e pc :
+  good_pc pc -> wf_source e = true -> is_starred e = false -> no_one_tuple e = true ->
+  read (pp pc e) = Some (norm e).
+Proof. intros Hg Hw Hs Hn. apply read_of_ES. apply read_print_ES; assumption. Qed.
+
 (* the recorded defect: the one-element tuple *)
 Lemma one_tuple_witness :
   let e := ETuple [EName [98%N]] in
@@ -1097,3 +1103,156 @@ Proof.
   - intros u; destruct u; reflexivity.
   - intros o; destruct o; reflexivity.
 Qed.
+
+(* ------------------------------------------------------------------ the tree of output calls built for an expression whose
+   names, numbers and delegated texts contain no newline is simple (WrapProofs.simple_cmd) *)
+Definition nonl (t : text) : bool := negb (has_nl t).
+
+Fixpoint simple_expr (e : expr) : bool :=
+  match e with
+  | ELeaf (LConst (KNum t)) => nonl t
+  | ELeaf (LConst _) => true
+  | ELeaf (LGen t) => nonl t
+  | EName s => nonl s
+  | EAttr v a g => simple_expr v && nonl a && nonl g
+  | EUn _ x => simple_expr x
+  | EBin _ l r => simple_expr l && simple_expr r
+  | EBool _ es | ETuple es | EList es | ESet es => forallb simple_expr es
+  | EDict items =>
+    forallb (fun kv : ditem => match fst kv with Some k => simple_expr k | None => true end && simple_expr (snd kv)) items
+  | ESub v sl => simple_expr v && simple_expr sl
+  | ECall f args kws =>
+    simple_expr f && forallb simple_expr args
+    && forallb (fun kw : kwarg => match fst kw with Some n => nonl n | None => true end && simple_expr (snd kw)) kws
+  | EStarred x => simple_expr x
+  end.
+
+Lemma simple_out t : nonl t = true -> simple_cmd (out t) = true.
+Proof. intros H. unfold out. cbn [simple_cmd plain_kind]. unfold nonl in H. rewrite H. reflexivity. Qed.
+
+Lemma simple_iter_body items : forall first, forallb simple_cmd items = true -> forallb simple_cmd (iter_body first items) = true.
+Proof.
+  induction items as [|c items IH]; intros first H; [reflexivity|].
+  cbn [forallb] in H. apply andb_true_iff in H. destruct H as [H1 H2].
+  cbn [iter_body]. rewrite forallb_app. apply andb_true_iff. split; [destruct first; reflexivity|].
+  cbn [app forallb simple_cmd]. rewrite H1. cbn [andb]. apply IH. exact H2.
+Qed.
+
+Lemma simple_iter_cmd pre suf items :
+  match pre with Some t => nonl t | None => true end = true ->
+  match suf with Some t => nonl t | None => true end = true ->
+  forallb simple_cmd items = true -> simple_cmd (iter_cmd pre suf items) = true.
+Proof.
+  intros H1 H2 H3. unfold iter_cmd. cbn [simple_cmd]. rewrite !forallb_app. cbn [forallb simple_cmd].
+  rewrite (simple_iter_body items true H3).
+  destruct pre as [t|]; destruct suf as [t'|]; cbn [opt_out forallb simple_cmd plain_kind];
+    unfold nonl in *; rewrite ?H1, ?H2; reflexivity.
+Qed.
+
+Lemma simple_intersperse sep l :
+  simple_cmd sep = true -> forallb simple_cmd l = true -> forallb simple_cmd (intersperse sep l) = true.
+Proof.
+  intros Hs. induction l as [|c l IH]; intros H; [reflexivity|].
+  cbn [forallb] in H. apply andb_true_iff in H. destruct H as [H1 H2].
+  destruct l as [|c2 l]; cbn [intersperse forallb]; [rewrite H1; reflexivity|].
+  rewrite H1, Hs. cbn [andb]. apply IH. exact H2.
+Qed.
+
+Lemma forallb_map_simple (f : expr -> cmd) es :
+  Forall (fun x => simple_expr x = true -> simple_cmd (f x) = true) es ->
+  forallb simple_expr es = true -> forallb simple_cmd (map f es) = true.
+Proof.
+  induction es as [|x es IH]; intros HF H; [reflexivity|].
+  inversion HF as [|? ? Hx HF']; subst. cbn [forallb map] in *. apply andb_true_iff in H. destruct H as [Ha Hb].
+  apply andb_true_iff. split; auto.
+Qed.
+
+Lemma dotted_simple e : forall parts, simple_expr e = true -> dotted e = Some parts -> forallb nonl parts = true.
+Proof.
+  induction e; intros parts Hs Hd; try discriminate.
+  - cbn in Hd. inversion Hd; subst. cbn in *. rewrite Hs. reflexivity.
+  - cbn [dotted] in Hd. destruct (dotted e) as [ps|] eqn:E; [|discriminate]. inversion Hd; subst.
+    cbn [simple_expr] in Hs. apply andb_true_iff in Hs. destruct Hs as [Hs Hg]. apply andb_true_iff in Hs.
+    destruct Hs as [Hv Ha]. rewrite forallb_app. rewrite (IHe ps Hv eq_refl). cbn. rewrite Ha. reflexivity.
+Qed.
+
+Lemma join_dot_nonl parts : forallb nonl parts = true -> nonl (join_dot parts) = true.
+Proof.
+  induction parts as [|p parts IH]; intros H; [reflexivity|].
+  cbn [forallb] in H. apply andb_true_iff in H. destruct H as [H1 H2].
+  destruct parts as [|q parts]; [exact H1|].
+  change (join_dot (p :: q :: parts)) with (p ++ [46%N] ++ join_dot (q :: parts)).
+  unfold nonl, has_nl in *. rewrite !existsb_app. apply negb_true_iff in H1. rewrite H1.
+  specialize (IH H2). apply negb_true_iff in IH. rewrite IH. reflexivity.
+Qed.
+
+Lemma op_texts_nonl :
+  (forall u, nonl (uop_text u) = true) /\ (forall b, nonl (bop_text b) = true) /\ (forall o, nonl (boolop_text o) = true).
+Proof. repeat split; intros x; destruct x; reflexivity. Qed.
+
+Lemma compile_simple e : forall pc, simple_expr e = true -> simple_cmd (compile pc e) = true.
+Proof.
+  destruct op_texts_nonl as [Hu [Hb Ho]].
+  induction e using expr_ind2; intros pc Hs.
+  - destruct l as [c|t]; [destruct c|]; cbn [compile compile_const simple_cmd plain_kind] in *;
+      try reflexivity; try (apply simple_out; exact Hs).
+  - cbn [compile simple_cmd plain_kind]. cbn [simple_expr] in Hs. unfold nonl in Hs. rewrite Hs. reflexivity.
+  - cbn [compile]. destruct (dotted (EAttr e a g)) as [parts|] eqn:E.
+    + cbn [simple_cmd plain_kind]. pose proof (join_dot_nonl parts (dotted_simple _ parts Hs E)) as H.
+      unfold nonl in H. rewrite H. reflexivity.
+    + cbn [simple_expr] in Hs. apply andb_true_iff in Hs. destruct Hs as [_ Hg]. apply simple_out. exact Hg.
+  - cbn [compile simple_cmd forallb]. rewrite (simple_out _ (Hu u)). cbn [simple_expr] in Hs. rewrite (IHe _ Hs). reflexivity.
+  - cbn [compile simple_cmd forallb]. cbn [simple_expr] in Hs. apply andb_true_iff in Hs. destruct Hs as [H1 H2].
+    rewrite (IHe1 _ H1), (IHe2 _ H2), (simple_out _ (Hb b)). reflexivity.
+  - cbn [compile simple_cmd]. cbn [simple_expr] in Hs. apply simple_intersperse; [apply simple_out; apply Ho|].
+    apply forallb_map_simple; [|exact Hs]. eapply Forall_impl; [|exact H]. intros x Hx. apply Hx.
+  - cbn [compile simple_cmd]. cbn [simple_expr] in Hs. apply simple_iter_cmd; try reflexivity.
+    apply forallb_map_simple; [|exact Hs]. eapply Forall_impl; [|exact H]. intros x Hx. apply Hx.
+  - cbn [compile simple_cmd]. cbn [simple_expr] in Hs. apply simple_iter_cmd; try reflexivity.
+    apply forallb_map_simple; [|exact Hs]. eapply Forall_impl; [|exact H]. intros x Hx. apply Hx.
+  - cbn [compile simple_cmd]. cbn [simple_expr] in Hs. apply simple_iter_cmd; try reflexivity.
+    apply forallb_map_simple; [|exact Hs]. eapply Forall_impl; [|exact H]. intros x Hx. apply Hx.
+  - cbn [compile simple_cmd forallb]. cbn [simple_expr] in Hs.
+    rewrite (simple_out [123%N] eq_refl), (simple_out [125%N] eq_refl). cbn [andb]. rewrite andb_true_r.
+    apply simple_iter_body.
+    induction items as [|[k v] items IHi]; [reflexivity|].
+    inversion H as [|? ? [Hk Hv] HF]; subst. cbn [forallb map fst snd] in *.
+    apply andb_true_iff in Hs. destruct Hs as [Hkv Hrest]. apply andb_true_iff in Hkv. destruct Hkv as [Hsk Hsv].
+    apply andb_true_iff. split; [|apply IHi; assumption].
+    destruct k as [k|]; cbn [simple_cmd forallb].
+    + rewrite (Hk _ Hsk), (Hv _ Hsv), (simple_out [58%N; 32%N] eq_refl). reflexivity.
+    + rewrite (Hv _ Hsv), (simple_out T_DSTAR eq_refl). reflexivity.
+  - cbn [simple_expr] in Hs. apply andb_true_iff in Hs. destruct Hs as [Hv Hsl].
+    cbn [compile simple_cmd forallb]. rewrite (IHe1 _ Hv), (simple_out T_LB eq_refl), (simple_out T_RB eq_refl).
+    cbn [andb]. rewrite andb_true_r.
+    destruct e2; try (cbn [simple_cmd forallb]; rewrite (IHe2 _ Hsl); reflexivity).
+    destruct es as [|x xs]; [reflexivity|].
+    cbn [simple_cmd]. cbn [sub_elts] in H. cbn [simple_expr] in Hsl.
+    apply simple_iter_cmd; [reflexivity|destruct xs; reflexivity|].
+    apply forallb_map_simple; [|exact Hsl]. eapply Forall_impl; [|exact H]. intros y Hy. apply Hy.
+  - cbn [simple_expr] in Hs. apply andb_true_iff in Hs. destruct Hs as [Hs Hkws]. apply andb_true_iff in Hs.
+    destruct Hs as [Hf Hargs].
+    cbn [compile simple_cmd forallb]. rewrite (IHe _ Hf), (simple_out T_LP eq_refl), (simple_out T_RP eq_refl).
+    cbn [andb]. rewrite andb_true_r. rewrite forallb_app. apply andb_true_iff. split.
+    + cbn [forallb simple_cmd]. rewrite andb_true_r. apply simple_iter_cmd; try reflexivity.
+      apply forallb_map_simple; [|exact Hargs]. eapply Forall_impl; [|exact H]. intros y Hy. apply Hy.
+    + destruct kws as [|kw kws]; [reflexivity|]. rewrite forallb_app. apply andb_true_iff. split; [destruct args; reflexivity|].
+      cbn [forallb simple_cmd]. rewrite andb_true_r. apply simple_iter_cmd; try reflexivity.
+      clear - H0 Hkws. revert H0 Hkws. generalize (kw :: kws) as l. intros l.
+      induction l as [|[k v] l IHl]; intros HF Hk; [reflexivity|].
+      inversion HF as [|? ? Hv HF']; subst. cbn [forallb map fst snd] in *.
+      apply andb_true_iff in Hk. destruct Hk as [Hkv Hrest]. apply andb_true_iff in Hkv. destruct Hkv as [Hn Hsv].
+      apply andb_true_iff. split; [|apply IHl; assumption].
+      destruct k as [name|]; cbn [simple_cmd forallb].
+      * rewrite (simple_out name Hn), (simple_out [61%N] eq_refl), (Hv _ Hsv). reflexivity.
+      * rewrite (simple_out T_DSTAR eq_refl), (Hv _ Hsv). reflexivity.
+  - cbn [compile simple_cmd forallb]. cbn [simple_expr] in Hs. rewrite (IHe _ Hs), (simple_out T_STAR eq_refl). reflexivity.
+Qed.
+
+(* colorize_inline_pyval never cuts an expression whose names, numbers and delegated texts are one-line *)
+Theorem inline_expr_complete e pc ml :
+  simple_expr e = true ->
+  c_complete (colorize (Params 0 ml false) (compile pc e)) = true /\
+  c_fuel_ok (colorize (Params 0 ml false) (compile pc e)) = true /\
+  nodes_text (c_nodes (colorize (Params 0 ml false) (compile pc e))) = flat (compile pc e).
+Proof. intros H. apply inline_complete. apply compile_simple. exact H. Qed.
